@@ -189,6 +189,14 @@ func edgeCase(r *prng.R) (prog, doc, kind string) {
 	case 7:
 		return "$round(" + edgeNums[r.Intn(len(edgeNums))] + ", " + r.Pick("0", "1", "-1", "15", "17", "20", "308", "323", "324", "400", "-308", "-400", "1.5", "1e10", "-1e10") + ")", doc, "edge:round-precision"
 	}
+	if r.Intn(6) == 0 {
+		// a matcher whose chain of match objects never ends (next is the matcher
+		// itself: nothing recurses, the library does the walking): every use that
+		// needs a bounded number of matches must still return
+		f := `$f := function($s){{"match":"a","start":0,"end":1,"groups":[],"next":$f}}; `
+		use := r.Pick(`$contains("a", $f)`, `$match("a", $f, 1)`, `$match("aaa", $f, 3)`, `$split("a", $f, 1)`, `$split("a", $f, 0)`, `$replace("a", $f, "b", 1)`, `$replace("a", $f, "b", 0)`, `$match("a", $f, 0)`)
+		return "(" + f + use + ")", doc, "edge:matcher-protocol:endless-chain-with-limit"
+	}
 	m := edgeMatcher(r, 0)
 	subj := r.Pick("s", "t", `""`, `"a"`, `"abcabcabc"`)
 	switch r.Intn(5) {
